@@ -1,32 +1,1869 @@
+// c16 — correspondence harness for property C16 (Paillier and ElGamal encryption:
+// decryption inverts encryption, homomorphisms exact, secret-key path = public path =
+// textbook formula).  See /verif/DESIGN.md §5 C16.
+//
+// Every case is one text line that is evaluated three ways:
+//   - by the real implementation through its public API (runLine),
+//   - by the extracted Coq model (driver),
+//   - by an independent math/big oracle (textbook formulas, lambda/mu decryption).
+// model != implementation is a "corr" mismatch, implementation != oracle is a failure
+// of the property itself (PropFail).
 package main
 
 import (
+	"bufio"
 	"crypto/rand"
 	"fmt"
+	"math/big"
 	"os"
+	"path/filepath"
+	"sort"
 	"strconv"
-	"time"
+	"strings"
 
+	"github.com/bronlabs/bron-crypto/pkg/base/algebra"
+	"github.com/bronlabs/bron-crypto/pkg/base/curves/edwards25519"
+	"github.com/bronlabs/bron-crypto/pkg/base/curves/k256"
+	"github.com/bronlabs/bron-crypto/pkg/base/curves/p256"
+	"github.com/bronlabs/bron-crypto/pkg/base/curves/pairable/bls12381"
+	"github.com/bronlabs/bron-crypto/pkg/base/nt/num"
 	"github.com/bronlabs/bron-crypto/pkg/base/nt/znstar"
+	"github.com/bronlabs/bron-crypto/pkg/encryption/elgamal"
+	"github.com/bronlabs/bron-crypto/pkg/encryption/paillier"
+
+	"verif/harness/internal/vh"
 )
 
-func main() {
-	fl := os.Args[1]
-	bits, _ := strconv.Atoi(os.Args[2])
-	t0 := time.Now()
-	var g *znstar.PaillierGroupKnownOrder
+var (
+	one = big.NewInt(1)
+	two = big.NewInt(2)
+)
+
+func zh(x *big.Int) string   { return vh.ZHex(x) }
+func uz(s string) *big.Int   { return vh.UnZHex(s) }
+func bmod(x, n *big.Int) *big.Int { return new(big.Int).Mod(x, n) }
+
+// ---------------------------------------------------------------------------------------
+// Paillier keys
+// ---------------------------------------------------------------------------------------
+
+type pkey struct {
+	flavour string
+	bits    int
+	p, q    *big.Int
+	N, N2   *big.Int
+	nplus   *num.NatPlus
+	group   *znstar.PaillierGroupKnownOrder
+	sk      *paillier.SecretKey
+	pk      *paillier.PublicKey
+	lambda  *big.Int // lcm(p-1,q-1), oracle only
+	mu      *big.Int // lambda^-1 mod N, oracle only
+	ninvl   *big.Int // N^-1 mod lambda, oracle only
+}
+
+var keyCache = map[string]*pkey{}
+
+func natPlus(x *big.Int) *num.NatPlus {
+	v, err := num.NPlus().FromBig(x)
+	if err != nil {
+		panic(fmt.Sprintf("NatPlus %s: %v", zh(x), err))
+	}
+	return v
+}
+
+// buildKey constructs the implementation key objects from the prime factors through the
+// public constructors (NewPaillierGroup, New[Legacy]SecretKey, NewPaillierGroupOfUnknownOrder,
+// New[Legacy]PublicKey).
+func buildKey(flavour string, p, q *big.Int) (*pkey, error) {
+	id := zh(p) + "/" + zh(q)
+	if k, ok := keyCache[id]; ok {
+		return k, nil
+	}
+	k := &pkey{flavour: flavour, p: p, q: q}
+	k.N = new(big.Int).Mul(p, q)
+	k.N2 = new(big.Int).Mul(k.N, k.N)
+	k.bits = k.N.BitLen()
 	var err error
-	switch fl {
-	case "general":
-		g, err = znstar.SamplePaillierGroup(uint(bits), rand.Reader)
-	case "blum":
-		g, err = znstar.SamplePaillierBlumGroup(uint(bits), rand.Reader)
-	case "safe":
-		g, err = znstar.SampleSafePaillierGroup(uint(bits), rand.Reader)
+	k.group, err = znstar.NewPaillierGroup(natPlus(p), natPlus(q))
+	if err != nil {
+		return nil, err
 	}
-	fmt.Fprintln(os.Stderr, fl, err, time.Since(t0))
-	if g != nil {
-		a := g.Arithmetic()
-		fmt.Println(fl, bits, a.P.Factor.Nat().Big().Text(16), a.Q.Factor.Nat().Big().Text(16))
+	if k.bits >= 3072 {
+		k.sk, err = paillier.NewSecretKey(k.group)
+	} else {
+		k.sk, err = paillier.NewLegacySecretKey(k.group)
 	}
+	if err != nil {
+		return nil, err
+	}
+	k.nplus = natPlus(k.N)
+	ug, err := znstar.NewPaillierGroupOfUnknownOrder(natPlus(k.N2), k.nplus)
+	if err != nil {
+		return nil, err
+	}
+	if k.bits >= 3072 {
+		k.pk, err = paillier.NewPublicKey(ug)
+	} else {
+		k.pk, err = paillier.NewLegacyPublicKey(ug)
+	}
+	if err != nil {
+		return nil, err
+	}
+	p1 := new(big.Int).Sub(p, one)
+	q1 := new(big.Int).Sub(q, one)
+	g := new(big.Int).GCD(nil, nil, p1, q1)
+	k.lambda = new(big.Int).Div(new(big.Int).Mul(p1, q1), g)
+	k.mu = new(big.Int).ModInverse(k.lambda, k.N)
+	k.ninvl = new(big.Int).ModInverse(k.N, k.lambda)
+	if k.mu == nil || k.ninvl == nil {
+		return nil, fmt.Errorf("gcd(N, lambda) != 1")
+	}
+	keyCache[id] = k
+	return k, nil
+}
+
+func verifRoot() string {
+	if r := os.Getenv("VERIF_ROOT"); r != "" {
+		return r
+	}
+	return "/verif"
+}
+
+type keySpec struct {
+	flavour string
+	bits    int
+}
+
+// loadKeys reads corpus/c16/keys.txt ("flavour bits p q", hex; test keys, no secrecy)
+// and generates (with the library's own generators) and appends whatever is missing.
+func loadKeys(want []keySpec, res *vh.Result) []*pkey {
+	path := filepath.Join(verifRoot(), "corpus", "c16", "keys.txt")
+	type ent struct{ p, q *big.Int }
+	have := map[keySpec]ent{}
+	var order []string
+	if f, err := os.Open(path); err == nil {
+		sc := bufio.NewScanner(f)
+		sc.Buffer(make([]byte, 1<<20), 1<<24)
+		for sc.Scan() {
+			line := strings.TrimSpace(sc.Text())
+			order = append(order, line)
+			f := strings.Fields(line)
+			if len(f) != 4 || strings.HasPrefix(line, "#") {
+				continue
+			}
+			b, _ := strconv.Atoi(f[1])
+			p, ok1 := new(big.Int).SetString(f[2], 16)
+			q, ok2 := new(big.Int).SetString(f[3], 16)
+			if ok1 && ok2 {
+				have[keySpec{f[0], b}] = ent{p, q}
+			}
+		}
+		f.Close()
+	}
+	var out []*pkey
+	dirty := false
+	for _, w := range want {
+		e, ok := have[w]
+		if !ok {
+			var g *znstar.PaillierGroupKnownOrder
+			var err error
+			switch w.flavour {
+			case "general":
+				g, err = znstar.SamplePaillierGroup(uint(w.bits), rand.Reader)
+			case "blum":
+				g, err = znstar.SamplePaillierBlumGroup(uint(w.bits), rand.Reader)
+			case "safe":
+				g, err = znstar.SampleSafePaillierGroup(uint(w.bits), rand.Reader)
+			}
+			if err != nil {
+				panic(fmt.Sprintf("cannot generate %s %d key: %v", w.flavour, w.bits, err))
+			}
+			a := g.Arithmetic()
+			e = ent{a.P.Factor.Nat().Big(), a.Q.Factor.Nat().Big()}
+			order = append(order, fmt.Sprintf("%s %d %s %s", w.flavour, w.bits, zh(e.p), zh(e.q)))
+			dirty = true
+			res.Note("generated missing %s %d-bit Paillier key into %s", w.flavour, w.bits, path)
+		}
+		k, err := buildKey(w.flavour, e.p, e.q)
+		if err != nil {
+			panic(fmt.Sprintf("stored %s %d key rejected by the library: %v", w.flavour, w.bits, err))
+		}
+		out = append(out, k)
+	}
+	if dirty {
+		os.MkdirAll(filepath.Dir(path), 0o755)
+		os.WriteFile(path, []byte(strings.Join(order, "\n")+"\n"), 0o644)
+	}
+	return out
+}
+
+// ---------------------------------------------------------------------------------------
+// math/big oracle (textbook Paillier)
+// ---------------------------------------------------------------------------------------
+
+// textbook c = (1+N)^m r^N mod N^2
+func (k *pkey) textbook(m, r *big.Int) *big.Int {
+	g := new(big.Int).Add(k.N, one)
+	a := new(big.Int).Exp(g, bmod(m, k.N), k.N2)
+	b := new(big.Int).Exp(r, k.N, k.N2)
+	return a.Mul(a, b).Mod(a, k.N2)
+}
+
+// textbook decryption m = L(c^lambda mod N^2) * mu mod N
+func (k *pkey) oracleDecrypt(c *big.Int) *big.Int {
+	x := new(big.Int).Exp(c, k.lambda, k.N2)
+	x.Sub(x, one).Div(x, k.N)
+	return x.Mul(x, k.mu).Mod(x, k.N)
+}
+
+// r = (c (1+N)^-m)^(N^-1 mod lambda) mod N
+func (k *pkey) oracleNonce(c, m *big.Int) *big.Int {
+	g := new(big.Int).Add(k.N, one)
+	gm := new(big.Int).Exp(g, m, k.N2)
+	gm.ModInverse(gm, k.N2)
+	y := gm.Mul(gm, c).Mod(gm, k.N)
+	return y.Exp(y, k.ninvl, k.N)
+}
+
+// symmetric-range residue: x in [-N/2, N/2) -> x mod N ; nil when out of range
+func (k *pkey) residue(x *big.Int) *big.Int {
+	if x.Sign() >= 0 && x.Cmp(k.N) < 0 {
+		return new(big.Int).Set(x)
+	}
+	if x.Sign() < 0 {
+		d := new(big.Int).Lsh(x, 1)
+		if d.Cmp(new(big.Int).Neg(k.N)) >= 0 {
+			return bmod(x, k.N)
+		}
+	}
+	return nil
+}
+
+// ---------------------------------------------------------------------------------------
+// Paillier register machine
+// ---------------------------------------------------------------------------------------
+
+type pop struct {
+	k       byte
+	i, j, l int
+	a, b    *big.Int
+}
+
+func (o pop) sk() bool { return o.k >= 'a' && o.k <= 'z' }
+
+func (o pop) text() string {
+	switch o.k {
+	case 'E', 'e':
+		return fmt.Sprintf("%c,%s,%s", o.k, zh(o.a), zh(o.b))
+	case 'A', 'a':
+		return fmt.Sprintf("%c,%d,%d", o.k, o.i, o.j)
+	case 'M', 'm':
+		return fmt.Sprintf("%c,%d,%d,%d", o.k, o.i, o.j, o.l)
+	case 'S', 's', 'H', 'h', 'R', 'r':
+		return fmt.Sprintf("%c,%d,%s", o.k, o.i, zh(o.a))
+	case 'I', 'i', 'D', 'O':
+		return fmt.Sprintf("%c,%d", o.k, o.i)
+	case 'X':
+		return fmt.Sprintf("X,%s", zh(o.a))
+	}
+	panic("bad op")
+}
+
+func parsePop(s string) pop {
+	f := strings.Split(s, ",")
+	o := pop{k: f[0][0]}
+	at := func(i int) int { v, _ := strconv.Atoi(f[i]); return v }
+	switch o.k {
+	case 'E', 'e':
+		o.a, o.b = uz(f[1]), uz(f[2])
+	case 'A', 'a':
+		o.i, o.j = at(1), at(2)
+	case 'M', 'm':
+		o.i, o.j, o.l = at(1), at(2), at(3)
+	case 'S', 's', 'H', 'h', 'R', 'r':
+		o.i, o.a = at(1), uz(f[2])
+	case 'I', 'i', 'D', 'O':
+		o.i = at(1)
+	case 'X':
+		o.a = uz(f[1])
+	default:
+		panic("bad op " + s)
+	}
+	return o
+}
+
+func popsText(ops []pop) string {
+	p := make([]string, len(ops))
+	for i, o := range ops {
+		p[i] = o.text()
+	}
+	return strings.Join(p, ";")
+}
+
+func producesReg(k byte) bool { return k != 'D' && k != 'O' }
+
+func opName(k byte) string {
+	switch k {
+	case 'E', 'e':
+		return "enc"
+	case 'A', 'a', 'M', 'm':
+		return "op"
+	case 'S', 's':
+		return "scale"
+	case 'H', 'h':
+		return "shift"
+	case 'R', 'r':
+		return "rerandomise"
+	case 'I', 'i':
+		return "inv"
+	case 'X':
+		return "newciphertext"
+	case 'D':
+		return "decrypt"
+	case 'O':
+		return "open"
+	}
+	return "?"
+}
+
+func (k *pkey) plaintext(x *big.Int) (*paillier.Plaintext, error) {
+	if x.Sign() < 0 {
+		z, err := num.Z().FromBig(x)
+		if err != nil {
+			return nil, err
+		}
+		return paillier.NewPlaintextSymmetric(z, k.nplus)
+	}
+	n, err := num.N().FromBig(x)
+	if err != nil {
+		return nil, err
+	}
+	return paillier.NewPlaintextFromNat(n, k.nplus)
+}
+
+func (k *pkey) nonce(r *big.Int, sk bool) (*paillier.Nonce, error) {
+	if r.Sign() <= 0 {
+		return nil, fmt.Errorf("non-positive nonce")
+	}
+	if sk {
+		return paillier.NewNonce(k.sk.Group(), natPlus(r))
+	}
+	return paillier.NewNonce(k.pk.Group(), natPlus(r))
+}
+
+func ctBig(c *paillier.Ciphertext) *big.Int { return c.Value().Value().Big() }
+
+// runPaillierImpl drives the implementation; one output token per op.
+func runPaillierImpl(k *pkey, ops []pop) []string {
+	var regs []*paillier.Ciphertext
+	outs := make([]string, len(ops))
+	identity := func() *paillier.Ciphertext {
+		c, err := paillier.NewCiphertext(k.pk.Group(), natPlus(one))
+		if err != nil {
+			panic(err)
+		}
+		return c
+	}
+	for n, o := range ops {
+		var c *paillier.Ciphertext
+		var err error
+		tok := ""
+		pan := vh.Safely(func() {
+			switch o.k {
+			case 'E', 'e':
+				var pt *paillier.Plaintext
+				var nn *paillier.Nonce
+				if pt, err = k.plaintext(o.a); err != nil {
+					return
+				}
+				if nn, err = k.nonce(o.b, o.sk()); err != nil {
+					return
+				}
+				if o.sk() {
+					c, err = k.sk.EncryptWithNonce(pt, nn)
+				} else {
+					c, err = k.pk.EncryptWithNonce(pt, nn)
+				}
+			case 'A':
+				c, err = k.pk.CiphertextOp(regs[o.i], regs[o.j])
+			case 'a':
+				c, err = k.sk.CiphertextOp(regs[o.i], regs[o.j])
+			case 'M':
+				c, err = k.pk.CiphertextOp(regs[o.i], regs[o.j], regs[o.l])
+			case 'm':
+				c, err = k.sk.CiphertextOp(regs[o.i], regs[o.j], regs[o.l])
+			case 'S', 's':
+				var z *num.Int
+				if z, err = num.Z().FromBig(o.a); err != nil {
+					return
+				}
+				if o.sk() {
+					c, err = k.sk.CiphertextScalarOp(regs[o.i], z)
+				} else {
+					c, err = k.pk.CiphertextScalarOp(regs[o.i], z)
+				}
+			case 'H', 'h':
+				var pt *paillier.Plaintext
+				if pt, err = k.plaintext(o.a); err != nil {
+					return
+				}
+				if o.sk() {
+					c, err = k.sk.Shift(regs[o.i], pt)
+				} else {
+					c, err = k.pk.Shift(regs[o.i], pt)
+				}
+			case 'R', 'r':
+				var nn *paillier.Nonce
+				if nn, err = k.nonce(o.a, o.sk()); err != nil {
+					return
+				}
+				if o.sk() {
+					c, err = k.sk.ReRandomise(regs[o.i], nn)
+				} else {
+					c, err = k.pk.ReRandomise(regs[o.i], nn)
+				}
+			case 'I':
+				c, err = k.pk.CiphertextOpInv(regs[o.i])
+			case 'i':
+				c, err = k.sk.CiphertextOpInv(regs[o.i])
+			case 'X':
+				if o.a.Sign() <= 0 {
+					err = fmt.Errorf("non-positive")
+					return
+				}
+				c, err = paillier.NewCiphertext(k.pk.Group(), natPlus(o.a))
+			case 'D':
+				var pt *paillier.Plaintext
+				if pt, err = k.sk.Decrypt(regs[o.i]); err == nil {
+					tok = zh(pt.Value().Big())
+				}
+			case 'O':
+				var pt *paillier.Plaintext
+				var nn *paillier.Nonce
+				if pt, nn, err = k.sk.Open(regs[o.i]); err == nil {
+					tok = zh(pt.Value().Big()) + "," + zh(nn.Value().Value().Big())
+				}
+			}
+		})
+		switch {
+		case pan != "":
+			tok = "PANIC"
+			c = nil
+		case err != nil:
+			tok = "ERR"
+			c = nil
+		case producesReg(o.k):
+			tok = zh(ctBig(c))
+		}
+		outs[n] = tok
+		if producesReg(o.k) {
+			if c == nil {
+				c = identity()
+			}
+			regs = append(regs, c)
+		}
+	}
+	return outs
+}
+
+// runPaillierOracle computes the expected tokens from tracked (plaintext, nonce) pairs with
+// math/big only: every ciphertext must be the textbook encryption of the combined
+// plaintext under the combined nonce, decryption returns the plaintext, opening both.
+func runPaillierOracle(k *pkey, ops []pop) []string {
+	type tr struct{ m, r *big.Int }
+	var regs []tr
+	outs := make([]string, len(ops))
+	for n, o := range ops {
+		var t *tr
+		switch o.k {
+		case 'E', 'e':
+			m := k.residue(o.a)
+			if m != nil && o.b.Sign() > 0 && new(big.Int).GCD(nil, nil, o.b, k.N).Cmp(one) == 0 {
+				t = &tr{m, bmod(o.b, k.N)}
+			}
+		case 'A', 'a':
+			x, y := regs[o.i], regs[o.j]
+			t = &tr{bmod(new(big.Int).Add(x.m, y.m), k.N), bmod(new(big.Int).Mul(x.r, y.r), k.N)}
+		case 'M', 'm':
+			x, y, z := regs[o.i], regs[o.j], regs[o.l]
+			m := new(big.Int).Add(x.m, y.m)
+			r := new(big.Int).Mul(x.r, y.r)
+			t = &tr{bmod(m.Add(m, z.m), k.N), bmod(r.Mul(r, z.r), k.N)}
+		case 'S', 's':
+			x := regs[o.i]
+			r := new(big.Int).Exp(x.r, new(big.Int).Abs(o.a), k.N)
+			if o.a.Sign() < 0 {
+				r.ModInverse(r, k.N)
+			}
+			t = &tr{bmod(new(big.Int).Mul(x.m, o.a), k.N), r}
+		case 'H', 'h':
+			x := regs[o.i]
+			if d := k.residue(o.a); d != nil {
+				t = &tr{bmod(new(big.Int).Add(x.m, d), k.N), x.r}
+			}
+		case 'R', 'r':
+			x := regs[o.i]
+			if o.a.Sign() > 0 && new(big.Int).GCD(nil, nil, o.a, k.N).Cmp(one) == 0 {
+				t = &tr{x.m, bmod(new(big.Int).Mul(x.r, o.a), k.N)}
+			}
+		case 'I', 'i':
+			x := regs[o.i]
+			t = &tr{bmod(new(big.Int).Neg(x.m), k.N), new(big.Int).ModInverse(x.r, k.N)}
+		case 'X':
+			if o.a.Sign() > 0 {
+				c := bmod(o.a, k.N2)
+				if new(big.Int).GCD(nil, nil, c, k.N).Cmp(one) == 0 {
+					m := k.oracleDecrypt(c)
+					t = &tr{m, k.oracleNonce(c, m)}
+				}
+			}
+		case 'D':
+			outs[n] = zh(regs[o.i].m)
+			continue
+		case 'O':
+			outs[n] = zh(regs[o.i].m) + "," + zh(regs[o.i].r)
+			continue
+		}
+		if t == nil {
+			outs[n] = "ERR"
+			regs = append(regs, tr{new(big.Int), big.NewInt(1)})
+		} else {
+			outs[n] = zh(k.textbook(t.m, t.r))
+			regs = append(regs, *t)
+		}
+	}
+	return outs
+}
+
+// pruneOps keeps op n and the ops its registers depend on (shrinking).
+func pruneOps(ops []pop, n int) []pop {
+	regOf := []int{} // register index -> op index
+	for i, o := range ops {
+		if producesReg(o.k) {
+			regOf = append(regOf, i)
+		}
+	}
+	need := map[int]bool{n: true}
+	for i := n; i >= 0; i-- {
+		if !need[i] {
+			continue
+		}
+		o := ops[i]
+		var rs []int
+		switch o.k {
+		case 'A', 'a':
+			rs = []int{o.i, o.j}
+		case 'M', 'm':
+			rs = []int{o.i, o.j, o.l}
+		case 'S', 's', 'H', 'h', 'R', 'r', 'I', 'i', 'D', 'O':
+			rs = []int{o.i}
+		}
+		for _, r := range rs {
+			need[regOf[r]] = true
+		}
+	}
+	newReg := map[int]int{}
+	var out []pop
+	nr, or := 0, 0
+	for i, o := range ops {
+		if producesReg(o.k) {
+			if need[i] {
+				newReg[or] = nr
+				nr++
+			}
+			or++
+		}
+		if !need[i] {
+			continue
+		}
+		switch o.k {
+		case 'A', 'a':
+			o.i, o.j = newReg[o.i], newReg[o.j]
+		case 'M', 'm':
+			o.i, o.j, o.l = newReg[o.i], newReg[o.j], newReg[o.l]
+		case 'S', 's', 'H', 'h', 'R', 'r', 'I', 'i', 'D', 'O':
+			o.i = newReg[o.i]
+		}
+		out = append(out, o)
+	}
+	return out
+}
+
+// ---------------------------------------------------------------------------------------
+// generators
+// ---------------------------------------------------------------------------------------
+
+func (k *pkey) genPlain(r *vh.Rng) *big.Int {
+	N := k.N
+	half := new(big.Int).Rsh(N, 1) // floor(N/2) = (N-1)/2
+	switch r.Intn(16) {
+	case 0:
+		return big.NewInt(0)
+	case 1:
+		return big.NewInt(1)
+	case 2:
+		return new(big.Int).Sub(N, one)
+	case 3:
+		return new(big.Int).Set(half)
+	case 4:
+		return new(big.Int).Add(half, one)
+	case 5:
+		return new(big.Int).Sub(half, one)
+	case 6:
+		return new(big.Int).Neg(half) // lower end of the symmetric range
+	case 7:
+		return new(big.Int).Add(new(big.Int).Neg(half), one)
+	case 8:
+		return big.NewInt(-1)
+	case 9:
+		return new(big.Int).Sub(N, two)
+	case 10:
+		return r.BigBits(1 + r.Intn(64))
+	case 11:
+		return new(big.Int).Neg(r.BigBelow(half))
+	case 12:
+		return new(big.Int).Set(k.p) // multiples of the factors are valid plaintexts
+	case 13:
+		return new(big.Int).Mul(k.q, big.NewInt(int64(1+r.Intn(5))))
+	default:
+		return r.BigBelow(N)
+	}
+}
+
+func (k *pkey) genNonce(r *vh.Rng) *big.Int {
+	for {
+		var x *big.Int
+		switch r.Intn(8) {
+		case 0:
+			x = big.NewInt(1)
+		case 1:
+			x = new(big.Int).Sub(k.N, one)
+		case 2:
+			x = big.NewInt(2)
+		case 3:
+			x = r.BigBits(1 + r.Intn(64))
+		case 4:
+			x = new(big.Int).Sub(k.N, two)
+		default:
+			x = r.BigBelow(k.N)
+		}
+		if x.Sign() > 0 && new(big.Int).GCD(nil, nil, x, k.N).Cmp(one) == 0 {
+			return x
+		}
+	}
+}
+
+func (k *pkey) genScalar(r *vh.Rng, cheap bool) *big.Int {
+	N := k.N
+	neg := func(x *big.Int) *big.Int {
+		if r.Bool() {
+			return x.Neg(x)
+		}
+		return x
+	}
+	c := r.Intn(20)
+	if cheap && c >= 8 {
+		c = r.Intn(8)
+	}
+	switch c {
+	case 0:
+		return big.NewInt(0)
+	case 1:
+		return big.NewInt(1)
+	case 2:
+		return big.NewInt(-1)
+	case 3:
+		return big.NewInt(2)
+	case 4:
+		return big.NewInt(-2)
+	case 5, 6:
+		return neg(r.BigBits(1 + r.Intn(48)))
+	case 7:
+		return neg(r.BigBits(1 + r.Intn(256)))
+	case 8:
+		return neg(new(big.Int).Set(N))
+	case 9:
+		return neg(new(big.Int).Add(N, one))
+	case 10:
+		return neg(new(big.Int).Sub(N, one))
+	case 11:
+		return neg(new(big.Int).Add(N, r.BigBits(1+r.Intn(80)))) // a little above N
+	case 12:
+		return neg(r.BigBits(k.bits + 1 + r.Intn(64))) // > N
+	case 13:
+		// multiple of phi(p^2): reduced exponent 0 on one CRT branch
+		p1 := new(big.Int).Sub(k.p, one)
+		return neg(new(big.Int).Mul(new(big.Int).Mul(k.p, p1), big.NewInt(int64(1+r.Intn(3)))))
+	case 14:
+		return neg(new(big.Int).Set(k.N2))
+	case 15:
+		return neg(new(big.Int).Set(k.lambda))
+	default:
+		return neg(r.BigBelow(N))
+	}
+}
+
+// genSeq builds one random operation sequence of at most maxLen ciphertext operations,
+// followed by decrypt/open of the last register and of one earlier register.
+func (k *pkey) genSeq(r *vh.Rng, maxLen int, cheap bool) []pop {
+	var ops []pop
+	nreg := 0
+	path := func(c byte) byte { // pk (upper case) or sk (lower case) path
+		if r.Bool() {
+			return c + ('a' - 'A')
+		}
+		return c
+	}
+	add := func(o pop) {
+		ops = append(ops, o)
+		if producesReg(o.k) {
+			nreg++
+		}
+	}
+	add(pop{k: path('E'), a: k.genPlain(r), b: k.genNonce(r)})
+	n := 1 + r.Intn(maxLen)
+	for len(ops) < n {
+		switch c := r.Intn(20); {
+		case c < 4:
+			add(pop{k: path('E'), a: k.genPlain(r), b: k.genNonce(r)})
+		case c < 7:
+			add(pop{k: path('A'), i: r.Intn(nreg), j: r.Intn(nreg)})
+		case c < 8:
+			add(pop{k: path('M'), i: r.Intn(nreg), j: r.Intn(nreg), l: r.Intn(nreg)})
+		case c < 12:
+			add(pop{k: path('S'), i: r.Intn(nreg), a: k.genScalar(r, cheap)})
+		case c < 15:
+			add(pop{k: path('H'), i: r.Intn(nreg), a: k.genPlain(r)})
+		case c < 17:
+			add(pop{k: path('R'), i: r.Intn(nreg), a: k.genNonce(r)})
+		case c < 19:
+			add(pop{k: path('I'), i: r.Intn(nreg)})
+		default:
+			// an arbitrary unit of Z*_{N^2} (every unit is an encryption for these moduli)
+			v := r.BigBelow(k.N2)
+			if v.Sign() == 0 {
+				v = big.NewInt(1)
+			}
+			add(pop{k: 'X', a: v})
+		}
+	}
+	add(pop{k: 'D', i: nreg - 1})
+	add(pop{k: 'O', i: nreg - 1})
+	if nreg > 1 && r.Bool() {
+		add(pop{k: 'O', i: r.Intn(nreg - 1)})
+	}
+	return ops
+}
+
+// ---------------------------------------------------------------------------------------
+// cases
+// ---------------------------------------------------------------------------------------
+
+// A testCase is one driver line plus what the implementation and the oracle say.
+type testCase struct {
+	line   string   // driver input
+	class  string   // distribution class
+	impl   []string // implementation tokens
+	oracle []string // math/big tokens ("" = no oracle for this token)
+	names  []string // per token: key suffix naming the operation
+	what   string
+	// elgamal: tokens are compared through the exponent by this function instead
+	cmpTok func(n int, model string) (ok bool, detail string)
+	shrink func(n int) string // optional: smaller line that contains token n
+}
+
+func paillierSeqCase(id string, k *pkey, ops []pop) *testCase {
+	tc := &testCase{
+		line:   fmt.Sprintf("P %s %s %s %s", id, zh(k.p), zh(k.q), popsText(ops)),
+		class:  fmt.Sprintf("paillier-seq/%s-%d", k.flavour, k.bits),
+		impl:   runPaillierImpl(k, ops),
+		oracle: runPaillierOracle(k, ops),
+		what:   "C16_enc_add/enc_scale/enc_shift/rerandomise/decrypt_enc/open_enc/sk_ops_equal_pk_ops (model vs implementation vs textbook)",
+	}
+	for _, o := range ops {
+		nm := "paillier-" + opName(o.k)
+		if producesReg(o.k) && o.k != 'X' {
+			if o.sk() {
+				nm += "-sk"
+			} else {
+				nm += "-pk"
+			}
+		}
+		if (o.k == 'S' || o.k == 's') && o.a.Sign() < 0 {
+			nm += "-neg"
+		}
+		tc.names = append(tc.names, nm)
+	}
+	tc.shrink = func(n int) string {
+		return fmt.Sprintf("P %s %s %s %s", id, zh(k.p), zh(k.q), popsText(pruneOps(ops, n)))
+	}
+	return tc
+}
+
+// single-operation Paillier cases ---------------------------------------------------------
+
+func errTok(err error, pan string, ok func() string) string {
+	if pan != "" {
+		return "PANIC"
+	}
+	if err != nil {
+		return "ERR"
+	}
+	return ok()
+}
+
+func single(line, class, name, what, impl, oracle string) *testCase {
+	return &testCase{line: line, class: class, impl: []string{impl}, oracle: []string{oracle}, names: []string{name}, what: what}
+}
+
+func (k *pkey) qCase(id, op string, args ...*big.Int) *testCase {
+	strs := make([]string, len(args))
+	for i, a := range args {
+		strs[i] = zh(a)
+	}
+	line := fmt.Sprintf("Q %s %s %s %s", id, zh(k.N), op, strings.Join(strs, " "))
+	var impl, oracle string
+	var err error
+	N := k.N
+	pt := func(x *big.Int) *paillier.Plaintext {
+		p, e := k.plaintext(bmod(x, N))
+		if e != nil {
+			panic(e)
+		}
+		return p
+	}
+	nn := func(x *big.Int) *paillier.Nonce {
+		n, e := k.nonce(x, false)
+		if e != nil {
+			panic(e)
+		}
+		return n
+	}
+	pan := vh.Safely(func() {
+		switch op {
+		case "sym":
+			var z *num.Int
+			z, err = num.Z().FromBig(args[0])
+			if err != nil {
+				return
+			}
+			var p *paillier.Plaintext
+			if p, err = paillier.NewPlaintextSymmetric(z, k.nplus); err == nil {
+				impl = zh(p.Value().Big())
+			}
+			d := new(big.Int).Lsh(args[0], 1)
+			if d.Cmp(new(big.Int).Neg(N)) >= 0 && d.Cmp(N) < 0 {
+				oracle = zh(bmod(args[0], N))
+			} else {
+				oracle = "ERR"
+			}
+		case "nat":
+			if args[0].Sign() < 0 {
+				err = fmt.Errorf("negative")
+			} else {
+				var n *num.Nat
+				if n, err = num.N().FromBig(args[0]); err != nil {
+					return
+				}
+				var p *paillier.Plaintext
+				if p, err = paillier.NewPlaintextFromNat(n, k.nplus); err == nil {
+					impl = zh(p.Value().Big())
+				}
+			}
+			if args[0].Sign() >= 0 && args[0].Cmp(N) < 0 {
+				oracle = zh(args[0])
+			} else {
+				oracle = "ERR"
+			}
+		case "norm":
+			impl = zh(pt(args[0]).Normalise().Big())
+			z := bmod(args[0], N)
+			if new(big.Int).Lsh(z, 1).Cmp(N) > 0 {
+				z.Sub(z, N)
+			}
+			oracle = zh(z)
+		case "padd":
+			var p *paillier.Plaintext
+			if p, err = k.pk.PlaintextOp(pt(args[0]), pt(args[1])); err == nil {
+				impl = zh(p.Value().Big())
+			}
+			oracle = zh(bmod(new(big.Int).Add(bmod(args[0], N), bmod(args[1], N)), N))
+		case "pneg":
+			var p *paillier.Plaintext
+			if p, err = k.pk.PlaintextOpInv(pt(args[0])); err == nil {
+				impl = zh(p.Value().Big())
+			}
+			oracle = zh(bmod(new(big.Int).Neg(args[0]), N))
+		case "pscale":
+			var z *num.Int
+			if z, err = num.Z().FromBig(args[1]); err != nil {
+				return
+			}
+			var p *paillier.Plaintext
+			if p, err = k.pk.PlaintextScalarOp(pt(args[0]), z); err == nil {
+				impl = zh(p.Value().Big())
+			}
+			oracle = zh(bmod(new(big.Int).Mul(bmod(args[0], N), args[1]), N))
+		case "nmul":
+			var n *paillier.Nonce
+			if n, err = k.pk.NonceOp(nn(args[0]), nn(args[1])); err == nil {
+				impl = zh(n.Value().Value().Big())
+			}
+			oracle = zh(bmod(new(big.Int).Mul(args[0], args[1]), N))
+		case "ninv":
+			var n *paillier.Nonce
+			if n, err = k.pk.NonceOpInv(nn(args[0])); err == nil {
+				impl = zh(n.Value().Value().Big())
+			}
+			oracle = zh(new(big.Int).ModInverse(args[0], N))
+		case "nscale":
+			var z *num.Int
+			if z, err = num.Z().FromBig(args[1]); err != nil {
+				return
+			}
+			var n *paillier.Nonce
+			if n, err = k.pk.NonceScalarOp(nn(args[0]), z); err == nil {
+				impl = zh(n.Value().Value().Big())
+			}
+			x := new(big.Int).Exp(args[0], new(big.Int).Abs(args[1]), N)
+			if args[1].Sign() < 0 {
+				x.ModInverse(x, N)
+			}
+			oracle = zh(x)
+		case "unit":
+			if args[0].Sign() <= 0 {
+				err = fmt.Errorf("non-positive")
+			} else {
+				var n *paillier.Nonce
+				if n, err = paillier.NewNonce(k.pk.Group(), natPlus(args[0])); err == nil {
+					impl = zh(n.Value().Value().Big())
+				}
+			}
+			u := bmod(args[0], N)
+			if args[0].Sign() > 0 && new(big.Int).GCD(nil, nil, u, N).Cmp(one) == 0 {
+				oracle = zh(u)
+			} else {
+				oracle = "ERR"
+			}
+		case "rep":
+			var c *paillier.Ciphertext
+			if c, err = k.pk.Representative(pt(args[0])); err == nil {
+				impl = zh(ctBig(c))
+			}
+			g := new(big.Int).Add(N, one)
+			oracle = zh(g.Exp(g, bmod(args[0], N), k.N2))
+		case "noise":
+			var c *paillier.Ciphertext
+			if c, err = k.pk.IdentityNoise(nn(args[0])); err == nil {
+				impl = zh(ctBig(c))
+			}
+			oracle = zh(new(big.Int).Exp(args[0], N, k.N2))
+		default:
+			panic("bad q op " + op)
+		}
+	})
+	if pan != "" {
+		impl = "PANIC"
+	} else if err != nil {
+		impl = "ERR"
+	}
+	return single(line, "paillier-single/"+op, "paillier-"+op, "correspondence of "+op+" (plaintext/nonce algebra, constructors)", impl, oracle)
+}
+
+// kCase: nonce-group operations on the secret-key (CRT mod p, q) path
+func (k *pkey) kCase(id, op string, args ...*big.Int) *testCase {
+	strs := make([]string, len(args))
+	for i, a := range args {
+		strs[i] = zh(a)
+	}
+	line := fmt.Sprintf("K %s %s %s %s %s", id, zh(k.p), zh(k.q), op, strings.Join(strs, " "))
+	var impl, oracle string
+	var err error
+	N := k.N
+	nn := func(x *big.Int) *paillier.Nonce {
+		n, e := k.nonce(x, true)
+		if e != nil {
+			panic(e)
+		}
+		return n
+	}
+	pan := vh.Safely(func() {
+		switch op {
+		case "nmul":
+			var n *paillier.Nonce
+			if n, err = k.sk.NonceOp(nn(args[0]), nn(args[1])); err == nil {
+				impl = zh(n.Value().Value().Big())
+			}
+			oracle = zh(bmod(new(big.Int).Mul(args[0], args[1]), N))
+		case "ninv":
+			var n *paillier.Nonce
+			if n, err = k.sk.NonceOpInv(nn(args[0])); err == nil {
+				impl = zh(n.Value().Value().Big())
+			}
+			oracle = zh(new(big.Int).ModInverse(args[0], N))
+		case "nscale":
+			var z *num.Int
+			if z, err = num.Z().FromBig(args[1]); err != nil {
+				return
+			}
+			var n *paillier.Nonce
+			if n, err = k.sk.NonceScalarOp(nn(args[0]), z); err == nil {
+				impl = zh(n.Value().Value().Big())
+			}
+			x := new(big.Int).Exp(args[0], new(big.Int).Abs(args[1]), N)
+			if args[1].Sign() < 0 {
+				x.ModInverse(x, N)
+			}
+			oracle = zh(x)
+		case "noise":
+			var c *paillier.Ciphertext
+			if c, err = k.sk.IdentityNoise(nn(args[0])); err == nil {
+				impl = zh(ctBig(c))
+			}
+			oracle = zh(new(big.Int).Exp(args[0], N, k.N2))
+		default:
+			panic("bad k op " + op)
+		}
+	})
+	if pan != "" {
+		impl = "PANIC"
+	} else if err != nil {
+		impl = "ERR"
+	}
+	return single(line, "paillier-single-sk/"+op, "paillier-sk-"+op, "C16_sk_ops_equal_pk_ops: "+op+" on the CRT path", impl, oracle)
+}
+
+// key construction: size floor, equal lengths, distinct factors
+func keyCase(id string, minlen int, p, q *big.Int) *testCase {
+	line := fmt.Sprintf("G %s %d %s %s", id, minlen, zh(p), zh(q))
+	impl := ""
+	var err error
+	pan := vh.Safely(func() {
+		var g *znstar.PaillierGroupKnownOrder
+		if p.Sign() <= 0 || q.Sign() <= 0 {
+			err = fmt.Errorf("non-positive")
+			return
+		}
+		if g, err = znstar.NewPaillierGroup(natPlus(p), natPlus(q)); err != nil {
+			return
+		}
+		var sk *paillier.SecretKey
+		switch minlen {
+		case 3072:
+			sk, err = paillier.NewSecretKey(g)
+		case 2048:
+			sk, err = paillier.NewLegacySecretKey(g)
+		default:
+			panic("bad minlen")
+		}
+		if err == nil {
+			impl = zh(sk.Group().N().Big())
+		}
+	})
+	if pan != "" {
+		impl = "PANIC"
+	} else if err != nil {
+		impl = "ERR"
+	}
+	N := new(big.Int).Mul(p, q)
+	oracle := zh(N)
+	if p.BitLen() != q.BitLen() || p.Cmp(q) == 0 || N.BitLen() < minlen {
+		oracle = "ERR"
+	}
+	return single(line, "paillier-keyfloor", "paillier-new-secret-key", "key-size floor / factor checks of newSecretKey", impl, oracle)
+}
+
+func pubKeyCase(id string, minlen int, N *big.Int) *testCase {
+	line := fmt.Sprintf("B %s %d %s", id, minlen, zh(N))
+	impl := ""
+	var err error
+	pan := vh.Safely(func() {
+		var ug *znstar.PaillierGroupUnknownOrder
+		n := natPlus(N)
+		if ug, err = znstar.NewPaillierGroupOfUnknownOrder(natPlus(new(big.Int).Mul(N, N)), n); err != nil {
+			return
+		}
+		var pk *paillier.PublicKey
+		if minlen == 3072 {
+			pk, err = paillier.NewPublicKey(ug)
+		} else {
+			pk, err = paillier.NewLegacyPublicKey(ug)
+		}
+		if err == nil {
+			impl = zh(pk.Group().N().Big())
+		}
+	})
+	if pan != "" {
+		impl = "PANIC"
+	} else if err != nil {
+		impl = "ERR"
+	}
+	oracle := zh(N)
+	if N.BitLen() < minlen {
+		oracle = "ERR"
+	}
+	return single(line, "paillier-keyfloor", "paillier-new-public-key", "key-size floor of newPublicKey", impl, oracle)
+}
+
+// textbook formula evaluated literally by the model vs EncryptWithNonce vs math/big
+func (k *pkey) textbookCase(id string, m, r *big.Int, sk bool) *testCase {
+	line := fmt.Sprintf("T %s %s %s %s", id, zh(k.N), zh(m), zh(r))
+	impl := ""
+	var err error
+	pan := vh.Safely(func() {
+		var pt *paillier.Plaintext
+		var nn *paillier.Nonce
+		if pt, err = k.plaintext(m); err != nil {
+			return
+		}
+		if nn, err = k.nonce(r, sk); err != nil {
+			return
+		}
+		var c *paillier.Ciphertext
+		if sk {
+			c, err = k.sk.EncryptWithNonce(pt, nn)
+		} else {
+			c, err = k.pk.EncryptWithNonce(pt, nn)
+		}
+		if err == nil {
+			impl = zh(ctBig(c))
+		}
+	})
+	if pan != "" {
+		impl = "PANIC"
+	} else if err != nil {
+		impl = "ERR"
+	}
+	name := "paillier-textbook-pk"
+	if sk {
+		name = "paillier-textbook-sk"
+	}
+	return single(line, "paillier-textbook", name, "C16_enc_textbook: EncryptWithNonce = (1+N)^m r^N mod N^2", impl, zh(k.textbook(m, r)))
+}
+
+// ---------------------------------------------------------------------------------------
+// ElGamal, through the exponent
+// ---------------------------------------------------------------------------------------
+
+type egroup interface {
+	name() string
+	order() *big.Int
+	seqCase(id string, a *big.Int, ops []pop) *testCase
+	sampled(id string, r *vh.Rng) *testCase
+	keyCases(id string) []*testCase
+	algCases(id string, r *vh.Rng) []*testCase
+}
+
+type eg[E elgamal.FiniteCyclicGroupElement[E, S], S algebra.UintLike[S]] struct {
+	nm string
+	g  elgamal.FiniteCyclicGroup[E, S]
+	zn algebra.ZModLike[S]
+	q  *big.Int
+}
+
+func newEg[E elgamal.FiniteCyclicGroupElement[E, S], S algebra.UintLike[S]](nm string, g elgamal.FiniteCyclicGroup[E, S]) *eg[E, S] {
+	zn := algebra.StructureMustBeAs[algebra.ZModLike[S]](g.ScalarStructure())
+	return &eg[E, S]{nm: nm, g: g, zn: zn, q: g.Order().Big()}
+}
+
+func (e *eg[E, S]) name() string    { return e.nm }
+func (e *eg[E, S]) order() *big.Int { return e.q }
+
+func (e *eg[E, S]) scalar(x *big.Int) S {
+	s, err := e.zn.FromBytesBEReduce(bmod(x, e.q).Bytes())
+	if err != nil {
+		panic(err)
+	}
+	return s
+}
+
+func (e *eg[E, S]) sbig(s S) *big.Int { return s.Cardinal().Big() }
+
+// pow returns g^x computed by the implementation's own group (subject of C14)
+func (e *eg[E, S]) pow(x *big.Int) E { return e.g.Generator().ScalarOp(e.scalar(x)) }
+
+// ElGamal ops reuse pop: E/e (mu, r), A (i,j), S (i, s), I, H (i, delta), R/r (i, r), D
+func (e *eg[E, S]) run(a *big.Int, ops []pop) (impl [][]E, errs []string, oracle [][2]*big.Int, oracleD []*big.Int) {
+	sk, err := elgamal.NewSecretKey(e.g.Generator(), e.scalar(a))
+	if err != nil {
+		panic(fmt.Sprintf("elgamal key %s: %v", zh(a), err))
+	}
+	pk := sk.Public()
+	var regs []*elgamal.Ciphertext[E, S]
+	var tr [][2]*big.Int // (rho, mu): ciphertext = (g^rho, g^(mu + a rho))
+	impl = make([][]E, len(ops))
+	errs = make([]string, len(ops))
+	oracle = make([][2]*big.Int, len(ops))
+	oracleD = make([]*big.Int, len(ops))
+	q := e.q
+	for n, o := range ops {
+		var c *elgamal.Ciphertext[E, S]
+		var err error
+		var t [2]*big.Int
+		pan := vh.Safely(func() {
+			switch o.k {
+			case 'E', 'e':
+				var pt *elgamal.Plaintext[E, S]
+				var nn *elgamal.Nonce[S]
+				if pt, err = elgamal.NewPlaintext(e.pow(o.a)); err != nil {
+					return
+				}
+				if nn, err = elgamal.NewNonce(e.scalar(o.b)); err != nil {
+					return
+				}
+				if o.k == 'e' {
+					c, err = sk.EncryptWithNonce(pt, nn)
+				} else {
+					c, err = pk.EncryptWithNonce(pt, nn)
+				}
+				t = [2]*big.Int{bmod(o.b, q), bmod(o.a, q)}
+			case 'A':
+				c, err = pk.CiphertextOp(regs[o.i], regs[o.j])
+				t = [2]*big.Int{bmod(new(big.Int).Add(tr[o.i][0], tr[o.j][0]), q), bmod(new(big.Int).Add(tr[o.i][1], tr[o.j][1]), q)}
+			case 'S':
+				c, err = pk.CiphertextScalarOp(regs[o.i], e.scalar(o.a))
+				t = [2]*big.Int{bmod(new(big.Int).Mul(tr[o.i][0], o.a), q), bmod(new(big.Int).Mul(tr[o.i][1], o.a), q)}
+			case 'I':
+				c, err = pk.CiphertextOpInv(regs[o.i])
+				t = [2]*big.Int{bmod(new(big.Int).Neg(tr[o.i][0]), q), bmod(new(big.Int).Neg(tr[o.i][1]), q)}
+			case 'H':
+				var pt *elgamal.Plaintext[E, S]
+				if pt, err = elgamal.NewPlaintext(e.pow(o.a)); err != nil {
+					return
+				}
+				c, err = pk.Shift(regs[o.i], pt)
+				t = [2]*big.Int{tr[o.i][0], bmod(new(big.Int).Add(tr[o.i][1], o.a), q)}
+			case 'R', 'r':
+				var nn *elgamal.Nonce[S]
+				if nn, err = elgamal.NewNonce(e.scalar(o.a)); err != nil {
+					return
+				}
+				if o.k == 'r' {
+					c, err = sk.ReRandomise(regs[o.i], nn)
+				} else {
+					c, err = pk.ReRandomise(regs[o.i], nn)
+				}
+				t = [2]*big.Int{bmod(new(big.Int).Add(tr[o.i][0], o.a), q), tr[o.i][1]}
+			case 'D':
+				var pt *elgamal.Plaintext[E, S]
+				if pt, err = sk.Decrypt(regs[o.i]); err == nil {
+					impl[n] = []E{pt.Value()}
+				}
+				oracleD[n] = tr[o.i][1]
+			}
+		})
+		if pan != "" {
+			errs[n] = "PANIC"
+		} else if err != nil {
+			errs[n] = "ERR"
+		}
+		if o.k == 'D' {
+			continue
+		}
+		if errs[n] != "" || c == nil {
+			if errs[n] == "" {
+				errs[n] = "ERR"
+			}
+			// keep register numbering: identity ciphertext
+			id, e2 := pk.Representative(&elgamal.Plaintext[E, S]{})
+			_ = id
+			_ = e2
+			panic(fmt.Sprintf("elgamal %s op %s failed: %s", e.nm, o.text(), errs[n]))
+		}
+		cs := c.Value().Components()
+		impl[n] = []E{cs[0], cs[1]}
+		regs = append(regs, c)
+		tr = append(tr, t)
+		// ciphertext exponents: (rho, mu + a*rho)
+		oracle[n] = [2]*big.Int{t[0], bmod(new(big.Int).Add(t[1], new(big.Int).Mul(a, t[0])), q)}
+	}
+	return impl, errs, oracle, oracleD
+}
+
+func egOpsText(ops []pop) string {
+	p := make([]string, len(ops))
+	for i, o := range ops {
+		switch o.k {
+		case 'E', 'e':
+			p[i] = fmt.Sprintf("%c,%s,%s", o.k, zh(o.a), zh(o.b))
+		case 'A':
+			p[i] = fmt.Sprintf("A,%d,%d", o.i, o.j)
+		case 'S', 'H', 'R', 'r':
+			p[i] = fmt.Sprintf("%c,%d,%s", o.k, o.i, zh(o.a))
+		case 'I', 'D':
+			p[i] = fmt.Sprintf("%c,%d", o.k, o.i)
+		}
+	}
+	return strings.Join(p, ";")
+}
+
+func (e *eg[E, S]) seqCase(id string, a *big.Int, ops []pop) *testCase {
+	impl, errs, oracle, oracleD := e.run(a, ops)
+	tc := &testCase{
+		line:  fmt.Sprintf("L %s:%s %s %s %s", e.nm, id, zh(e.q), zh(a), egOpsText(ops)),
+		class: "elgamal-seq/" + e.nm,
+		what:  "C16_elgamal_decrypt_enc/elgamal_homomorphic/elgamal_rerandomise (exponent model vs implementation points)",
+	}
+	for n, o := range ops {
+		tc.names = append(tc.names, "elgamal-"+e.nm+"-"+opName(o.k))
+		// implementation vs oracle, through the exponent
+		ok := errs[n] == ""
+		if ok && o.k == 'D' {
+			ok = e.pow(oracleD[n]).Equal(impl[n][0])
+		} else if ok {
+			ok = e.pow(oracle[n][0]).Equal(impl[n][0]) && e.pow(oracle[n][1]).Equal(impl[n][1])
+		}
+		if ok {
+			tc.impl = append(tc.impl, "ok")
+		} else {
+			tc.impl = append(tc.impl, "bad"+errs[n])
+		}
+		tc.oracle = append(tc.oracle, "ok")
+	}
+	tc.cmpTok = func(n int, model string) (bool, string) {
+		if errs[n] != "" {
+			return false, "implementation " + errs[n] + ", model " + model
+		}
+		f := strings.Split(model, ",")
+		if ops[n].k == 'D' {
+			if len(f) != 1 {
+				return false, "model token " + model
+			}
+			if !e.pow(uz(f[0])).Equal(impl[n][0]) {
+				return false, fmt.Sprintf("Decrypt != g^%s (model exponent); expected exponent %s", f[0], zh(oracleD[n]))
+			}
+			return true, ""
+		}
+		if len(f) != 2 {
+			return false, "model token " + model
+		}
+		if !e.pow(uz(f[0])).Equal(impl[n][0]) || !e.pow(uz(f[1])).Equal(impl[n][1]) {
+			return false, fmt.Sprintf("ciphertext != (g^%s, g^%s) (model exponents); expected exponents (%s, %s)", f[0], f[1], zh(oracle[n][0]), zh(oracle[n][1]))
+		}
+		return true, ""
+	}
+	return tc
+}
+
+// sampled: key and nonce drawn by the library from the seeded reader; exponents read back
+// through the public accessors (SecretKey.Value, Nonce.Value)
+func (e *eg[E, S]) sampled(id string, r *vh.Rng) *testCase {
+	sk, err := elgamal.SampleSecretKey(e.g, r)
+	if err != nil {
+		panic(err)
+	}
+	a := e.sbig(sk.Value())
+	nn, err := sk.SampleNonce(r)
+	if err != nil {
+		panic(err)
+	}
+	rho := e.sbig(nn.Value())
+	mu := r.BigBelow(e.q)
+	ops := []pop{{k: 'E', a: mu, b: rho}, {k: 'e', a: mu, b: rho}, {k: 'D', i: 0}, {k: 'D', i: 1}}
+	tc := e.seqCase(id, a, ops)
+	tc.class = "elgamal-sampled/" + e.nm
+	// the sampled objects themselves must agree with the re-constructed ones
+	pt, _ := elgamal.NewPlaintext(e.pow(mu))
+	c, err := sk.EncryptWithNonce(pt, nn)
+	if err != nil || !c.Value().Components()[0].Equal(e.pow(rho)) || !sk.Public().Value().Equal(e.pow(a)) {
+		tc.impl[0] = "bad-sampled"
+	}
+	return tc
+}
+
+func (e *eg[E, S]) keyCases(id string) []*testCase {
+	var out []*testCase
+	q1 := new(big.Int).Sub(e.q, one)
+	for i, a := range []*big.Int{big.NewInt(0), big.NewInt(1), big.NewInt(2), q1, new(big.Int).Set(e.q), new(big.Int).Add(e.q, one)} {
+		impl := ""
+		var err error
+		pan := vh.Safely(func() {
+			var sk *elgamal.SecretKey[E, S]
+			if sk, err = elgamal.NewSecretKey(e.g.Generator(), e.scalar(a)); err == nil {
+				impl = zh(e.sbig(sk.Value()))
+				if !sk.Public().Value().Equal(e.pow(a)) {
+					impl = "bad-public"
+				}
+			}
+		})
+		impl = errTok(err, pan, func() string { return impl })
+		am := bmod(a, e.q)
+		oracle := zh(am)
+		if am.Sign() == 0 || am.Cmp(one) == 0 {
+			oracle = "ERR"
+		}
+		out = append(out, single(fmt.Sprintf("M %s:%s.%d %s sk %s", e.nm, id, i, zh(e.q), zh(a)), "elgamal-key/"+e.nm, "elgamal-"+e.nm+"-new-secret-key", "ElGamal NewSecretKey refusals", impl, oracle))
+	}
+	for i, h := range []*big.Int{big.NewInt(0), big.NewInt(1), big.NewInt(5)} {
+		impl := ""
+		var err error
+		pan := vh.Safely(func() {
+			var pk *elgamal.PublicKey[E, S]
+			if pk, err = elgamal.NewPublicKey(e.pow(h)); err == nil {
+				impl = zh(h)
+				if !pk.Value().Equal(e.pow(h)) {
+					impl = "bad-public"
+				}
+			}
+		})
+		impl = errTok(err, pan, func() string { return impl })
+		oracle := zh(h)
+		if h.Sign() == 0 {
+			oracle = "ERR"
+		}
+		out = append(out, single(fmt.Sprintf("M %s:%s.p%d %s pk %s", e.nm, id, i, zh(e.q), zh(h)), "elgamal-key/"+e.nm, "elgamal-"+e.nm+"-new-public-key", "ElGamal NewPublicKey refusals", impl, oracle))
+	}
+	return out
+}
+
+// plaintext / nonce algebra of the key
+func (e *eg[E, S]) algCases(id string, r *vh.Rng) []*testCase {
+	sk, err := elgamal.NewSecretKey(e.g.Generator(), e.scalar(big.NewInt(7)))
+	if err != nil {
+		panic(err)
+	}
+	pk := sk.Public()
+	var out []*testCase
+	q := e.q
+	pick := func() *big.Int {
+		switch r.Intn(5) {
+		case 0:
+			return big.NewInt(0)
+		case 1:
+			return big.NewInt(1)
+		case 2:
+			return new(big.Int).Sub(q, one)
+		default:
+			return r.BigBelow(q)
+		}
+	}
+	for i := 0; i < 6; i++ {
+		a, b := pick(), pick()
+		op := []string{"padd", "pneg", "pscale", "nadd", "nneg", "nscale"}[i]
+		var exp *big.Int
+		okImpl := false
+		var err error
+		pan := vh.Safely(func() {
+			pa, _ := elgamal.NewPlaintext(e.pow(a))
+			pb, _ := elgamal.NewPlaintext(e.pow(b))
+			na, _ := elgamal.NewNonce(e.scalar(a))
+			nb, _ := elgamal.NewNonce(e.scalar(b))
+			switch op {
+			case "padd":
+				exp = bmod(new(big.Int).Add(a, b), q)
+				var p *elgamal.Plaintext[E, S]
+				if p, err = pk.PlaintextOp(pa, pb); err == nil {
+					okImpl = p.Value().Equal(e.pow(exp))
+				}
+			case "pneg":
+				exp = bmod(new(big.Int).Neg(a), q)
+				var p *elgamal.Plaintext[E, S]
+				if p, err = pk.PlaintextOpInv(pa); err == nil {
+					okImpl = p.Value().Equal(e.pow(exp))
+				}
+			case "pscale":
+				exp = bmod(new(big.Int).Mul(a, b), q)
+				var p *elgamal.Plaintext[E, S]
+				if p, err = pk.PlaintextScalarOp(pa, e.scalar(b)); err == nil {
+					okImpl = p.Value().Equal(e.pow(exp))
+				}
+			case "nadd":
+				exp = bmod(new(big.Int).Add(a, b), q)
+				var n *elgamal.Nonce[S]
+				if n, err = pk.NonceOp(na, nb); err == nil {
+					okImpl = e.sbig(n.Value()).Cmp(exp) == 0
+				}
+			case "nneg":
+				exp = bmod(new(big.Int).Neg(a), q)
+				var n *elgamal.Nonce[S]
+				if n, err = pk.NonceOpInv(na); err == nil {
+					okImpl = e.sbig(n.Value()).Cmp(exp) == 0
+				}
+			case "nscale":
+				exp = bmod(new(big.Int).Mul(a, b), q)
+				var n *elgamal.Nonce[S]
+				if n, err = pk.NonceScalarOp(na, e.scalar(b)); err == nil {
+					okImpl = e.sbig(n.Value()).Cmp(exp) == 0
+				}
+			}
+		})
+		impl := errTok(err, pan, func() string {
+			if okImpl {
+				return zh(exp)
+			}
+			return "bad"
+		})
+		args := zh(a)
+		if op != "pneg" && op != "nneg" {
+			args += " " + zh(b)
+		}
+		out = append(out, single(fmt.Sprintf("J %s:%s.%d %s %s %s", e.nm, id, i, zh(q), op, args), "elgamal-algebra/"+e.nm, "elgamal-"+e.nm+"-"+op, "ElGamal plaintext/nonce algebra", impl, zh(exp)))
+	}
+	return out
+}
+
+func genEgSeq(r *vh.Rng, q *big.Int, maxLen int) []pop {
+	pick := func() *big.Int {
+		switch r.Intn(8) {
+		case 0:
+			return big.NewInt(0)
+		case 1:
+			return big.NewInt(1)
+		case 2:
+			return new(big.Int).Sub(q, one)
+		case 3:
+			return r.BigBits(1 + r.Intn(32))
+		default:
+			return r.BigBelow(q)
+		}
+	}
+	var ops []pop
+	nreg := 0
+	add := func(o pop) {
+		ops = append(ops, o)
+		if o.k != 'D' {
+			nreg++
+		}
+	}
+	enc := func() {
+		k := byte('E')
+		if r.Bool() {
+			k = 'e'
+		}
+		add(pop{k: k, a: pick(), b: pick()})
+	}
+	enc()
+	n := 1 + r.Intn(maxLen)
+	for len(ops) < n {
+		switch c := r.Intn(12); {
+		case c < 3:
+			enc()
+		case c < 5:
+			add(pop{k: 'A', i: r.Intn(nreg), j: r.Intn(nreg)})
+		case c < 7:
+			add(pop{k: 'S', i: r.Intn(nreg), a: pick()})
+		case c < 8:
+			add(pop{k: 'I', i: r.Intn(nreg)})
+		case c < 10:
+			add(pop{k: 'H', i: r.Intn(nreg), a: pick()})
+		case c < 11:
+			add(pop{k: 'R', i: r.Intn(nreg), a: pick()})
+		default:
+			add(pop{k: 'r', i: r.Intn(nreg), a: pick()})
+		}
+	}
+	add(pop{k: 'D', i: nreg - 1})
+	if nreg > 1 {
+		add(pop{k: 'D', i: r.Intn(nreg - 1)})
+	}
+	return ops
+}
+
+func parseEgOps(s string) []pop {
+	var ops []pop
+	for _, t := range strings.Split(s, ";") {
+		f := strings.Split(t, ",")
+		o := pop{k: f[0][0]}
+		at := func(i int) int { v, _ := strconv.Atoi(f[i]); return v }
+		switch o.k {
+		case 'E', 'e':
+			o.a, o.b = uz(f[1]), uz(f[2])
+		case 'A':
+			o.i, o.j = at(1), at(2)
+		case 'S', 'H', 'R', 'r':
+			o.i, o.a = at(1), uz(f[2])
+		case 'I', 'D':
+			o.i = at(1)
+		}
+		ops = append(ops, o)
+	}
+	return ops
+}
+
+func groups() []egroup {
+	return []egroup{
+		newEg("k256", elgamal.FiniteCyclicGroup[*k256.Point, *k256.Scalar](k256.NewCurve())),
+		newEg("p256", elgamal.FiniteCyclicGroup[*p256.Point, *p256.Scalar](p256.NewCurve())),
+		newEg("ed25519", elgamal.FiniteCyclicGroup[*edwards25519.PrimeSubGroupPoint, *edwards25519.Scalar](edwards25519.NewPrimeSubGroup())),
+		newEg("bls12381g1", elgamal.FiniteCyclicGroup[*bls12381.PointG1, *bls12381.Scalar](bls12381.NewG1())),
+		newEg("bls12381g2", elgamal.FiniteCyclicGroup[*bls12381.PointG2, *bls12381.Scalar](bls12381.NewG2())),
+	}
+}
+
+// ---------------------------------------------------------------------------------------
+// replay: rebuild a case from its driver line
+// ---------------------------------------------------------------------------------------
+
+func caseFromLine(line string) *testCase {
+	f := strings.Fields(line)
+	switch f[0] {
+	case "P":
+		k, err := buildKey("replay", uz(f[2]), uz(f[3]))
+		if err != nil {
+			panic(err)
+		}
+		var ops []pop
+		for _, t := range strings.Split(f[4], ";") {
+			ops = append(ops, parsePop(t))
+		}
+		return paillierSeqCase(f[1], k, ops)
+	case "Q":
+		k := keyByN(uz(f[2]))
+		var args []*big.Int
+		for _, a := range f[4:] {
+			args = append(args, uz(a))
+		}
+		return k.qCase(f[1], f[3], args...)
+	case "K":
+		k, err := buildKey("replay", uz(f[2]), uz(f[3]))
+		if err != nil {
+			panic(err)
+		}
+		var args []*big.Int
+		for _, a := range f[5:] {
+			args = append(args, uz(a))
+		}
+		return k.kCase(f[1], f[4], args...)
+	case "G":
+		ml, _ := strconv.Atoi(f[2])
+		return keyCase(f[1], ml, uz(f[3]), uz(f[4]))
+	case "B":
+		ml, _ := strconv.Atoi(f[2])
+		return pubKeyCase(f[1], ml, uz(f[3]))
+	case "T":
+		return keyByN(uz(f[2])).textbookCase(f[1], uz(f[3]), uz(f[4]), strings.HasSuffix(f[1], "s"))
+	case "L":
+		nm := strings.SplitN(f[1], ":", 2)
+		for _, g := range groups() {
+			if g.name() == nm[0] {
+				return g.seqCase(nm[1], uz(f[3]), parseEgOps(f[4]))
+			}
+		}
+	}
+	panic("cannot replay line " + line)
+}
+
+func keyByN(N *big.Int) *pkey {
+	for _, k := range keyCache {
+		if k.N.Cmp(N) == 0 {
+			return k
+		}
+	}
+	panic("replay: no stored key with modulus " + zh(N))
+}
+
+// ---------------------------------------------------------------------------------------
+// main
+// ---------------------------------------------------------------------------------------
+
+func compare(res *vh.Result, a vh.Args, cases []*testCase, searchOnly bool) {
+	lines := make([]string, len(cases))
+	for i, c := range cases {
+		lines[i] = c.line
+	}
+	model, err := vh.Driver(a.Driver, lines)
+	if err != nil {
+		res.Mismatch(vh.Mismatch{ID: "driver", Kind: "corr", Key: "c16-driver-failed", Detail: err.Error(), Case: "-", What: "model driver"})
+		return
+	}
+	for i, c := range cases {
+		f := strings.SplitN(model[i], " ", 3)
+		var mt []string
+		if len(f) == 3 {
+			mt = strings.Split(f[2], ";")
+		}
+		if len(mt) != len(c.impl) {
+			res.Mismatch(vh.Mismatch{ID: c.line[:min(40, len(c.line))], Kind: "corr", Key: "c16-model-output-shape", Detail: "model: " + model[i], Case: c.line, What: c.what})
+			continue
+		}
+		for n := range c.impl {
+			res.Count(c.class+":"+c.names[n], c.line+"#"+strconv.Itoa(n), c.impl[n] != "ERR")
+			propFail := c.oracle[n] != "" && c.impl[n] != c.oracle[n]
+			corrOK := true
+			detail := ""
+			if c.cmpTok != nil {
+				corrOK, detail = c.cmpTok(n, mt[n])
+			} else if mt[n] != c.impl[n] {
+				corrOK = false
+				detail = fmt.Sprintf("implementation %s, model %s", c.impl[n], mt[n])
+			}
+			if corrOK && !propFail {
+				continue
+			}
+			if searchOnly && !propFail {
+				continue
+			}
+			cs := c.line
+			if c.shrink != nil {
+				cs = c.shrink(n)
+			}
+			kind := "corr"
+			if corrOK {
+				kind = "prop"
+			}
+			if propFail {
+				detail += fmt.Sprintf("; implementation %s, math/big oracle %s", c.impl[n], c.oracle[n])
+			}
+			res.Mismatch(vh.Mismatch{
+				ID: fmt.Sprintf("%s#%d", f[1], n), Kind: kind, Key: c.names[n], Detail: fmt.Sprintf("op %d of the case: %s", n, detail),
+				Case: cs, PropFail: propFail, What: c.what,
+			})
+			break // later tokens of the same sequence depend on this one
+		}
+	}
+}
+
+func main() {
+	a := vh.ParseArgs()
+	res := vh.NewResult("C16", a.Seed, a.Tier)
+	res.Rule = "Paillier: keys general/Blum/safe at 2048 bits (NewLegacySecretKey floor) and general 3072 (NewSecretKey floor), stored in corpus/c16/keys.txt (all flavours at 3072 in the thorough tier); random register-machine sequences (<= 8 ops quick, <= 30 thorough) of encrypt / op / 3-ary op / scalar / shift / re-randomise / inverse / raw unit, each on the public-key or the secret-key (CRT) path at random, then Decrypt and Open; plaintexts 0, 1, N-1, +-floor(N/2) and neighbours, multiples of p and q; nonces 1, 2, N-1, N-2, random; scalars 0, +-1, +-2, +-N, +-(N+-1), > N, multiples of phi(p^2), +-N^2, lambda. Every token is compared model = implementation (corr) and implementation = math/big textbook oracle (prop). Single-operation cases for constructors, symmetric range, plaintext/nonce algebra on both paths, key-size floors. ElGamal on k256, p256, ed25519 prime subgroup, BLS12-381 G1 and G2 through the exponent: model exponents e are checked as g^e == implementation point. One evaluation = one operation token; non-trivial = not refused."
+
+	var cases []*testCase
+	if a.Replay != "" {
+		b, err := os.ReadFile(a.Replay)
+		if err != nil {
+			panic(err)
+		}
+		// stored keys are needed for Q/T lines
+		loadKeys([]keySpec{{"general", 2048}, {"blum", 2048}, {"safe", 2048}, {"general", 3072}}, res)
+		for _, l := range strings.Split(string(b), "\n") {
+			if strings.HasPrefix(l, "case: ") {
+				cases = append(cases, caseFromLine(strings.TrimPrefix(l, "case: ")))
+			}
+		}
+		compare(res, a, cases, false)
+		res.Write(a.Out)
+		return
+	}
+
+	thorough := a.Tier == "thorough"
+	want := []keySpec{{"general", 2048}, {"blum", 2048}, {"safe", 2048}, {"general", 3072}}
+	if thorough {
+		want = append(want, keySpec{"blum", 3072}, keySpec{"safe", 3072})
+	}
+	keys := loadKeys(want, res)
+
+	nseq, maxLen, nsingle, egSeq, egLen := 14, 8, 2, 12, 8
+	if thorough {
+		nseq, maxLen, nsingle, egSeq, egLen = 120, 30, 8, 150, 30
+	}
+	if a.Search {
+		nseq, nsingle, egSeq = nseq*4, nsingle*3, egSeq*4
+	}
+	stream := "main"
+	if a.Search {
+		stream = "search"
+	}
+
+	for ki, k := range keys {
+		r := vh.NewRng(a.Seed, "C16", stream+"/paillier-seq", ki)
+		ns := nseq
+		if k.bits >= 3072 && !thorough {
+			ns = nseq / 3
+		}
+		for s := 0; s < ns; s++ {
+			// in the quick tier most sequences use cheap (short) scalars; the big ones are
+			// exercised by every third sequence
+			cheap := !thorough && s%3 != 0
+			cases = append(cases, paillierSeqCase(fmt.Sprintf("%s%d.%d", k.flavour, k.bits, s), k, k.genSeq(r, maxLen, cheap)))
+		}
+		// fixed boundary sequence: symmetric range ends, nonces 1 and N-1, scalars -1, 0, N+1 on both paths
+		half := new(big.Int).Rsh(k.N, 1)
+		nm1 := new(big.Int).Sub(k.N, one)
+		fixed := []pop{
+			{k: 'E', a: new(big.Int).Neg(half), b: big.NewInt(1)}, {k: 'e', a: half, b: nm1},
+			{k: 'A', i: 0, j: 1}, {k: 'a', i: 0, j: 1},
+			{k: 'S', i: 0, a: big.NewInt(-1)}, {k: 's', i: 0, a: big.NewInt(-1)},
+			{k: 'S', i: 1, a: big.NewInt(0)}, {k: 's', i: 1, a: new(big.Int).Add(k.N, one)},
+			{k: 'H', i: 1, a: big.NewInt(1)}, {k: 'h', i: 0, a: big.NewInt(-1)},
+			{k: 'R', i: 8, a: nm1}, {k: 'r', i: 9, a: big.NewInt(2)},
+			{k: 'I', i: 10}, {k: 'i', i: 11},
+			{k: 'D', i: 0}, {k: 'D', i: 1}, {k: 'D', i: 2}, {k: 'O', i: 8}, {k: 'O', i: 9}, {k: 'O', i: 12}, {k: 'O', i: 13}, {k: 'D', i: 6}, {k: 'O', i: 7},
+		}
+		cases = append(cases, paillierSeqCase(fmt.Sprintf("%s%d.fixed", k.flavour, k.bits), k, fixed))
+
+		if k.bits >= 3072 && !thorough {
+			continue
+		}
+		rs := vh.NewRng(a.Seed, "C16", stream+"/paillier-single", ki)
+		id := func(s string, i int) string { return fmt.Sprintf("%s%d.%s%d", k.flavour, k.bits, s, i) }
+		// symmetric range and constructors: always the boundaries
+		negHalf := new(big.Int).Neg(half)
+		for i, x := range []*big.Int{big.NewInt(0), big.NewInt(1), big.NewInt(-1), half, new(big.Int).Add(half, one), new(big.Int).Sub(half, one),
+			negHalf, new(big.Int).Sub(negHalf, one), new(big.Int).Add(negHalf, one), nm1, k.N, new(big.Int).Neg(k.N)} {
+			cases = append(cases, k.qCase(id("sym", i), "sym", x), k.qCase(id("nat", i), "nat", x))
+			if x.Sign() >= 0 && x.Cmp(k.N) < 0 {
+				cases = append(cases, k.qCase(id("norm", i), "norm", x), k.qCase(id("rep", i), "rep", x))
+			}
+		}
+		for i, x := range []*big.Int{big.NewInt(0), big.NewInt(1), nm1, k.N, new(big.Int).Add(k.N, one), k.p, new(big.Int).Mul(k.q, two), new(big.Int).Add(k.N, k.p)} {
+			cases = append(cases, k.qCase(id("unit", i), "unit", x))
+		}
+		for i := 0; i < nsingle; i++ {
+			x, y := k.genPlain(rs), k.genPlain(rs)
+			cases = append(cases,
+				k.qCase(id("padd", i), "padd", bmod(x, k.N), bmod(y, k.N)),
+				k.qCase(id("pneg", i), "pneg", bmod(x, k.N)),
+				k.qCase(id("pscale", i), "pscale", bmod(x, k.N), k.genScalar(rs, false)),
+				k.qCase(id("norm-r", i), "norm", bmod(x, k.N)))
+			u, v := k.genNonce(rs), k.genNonce(rs)
+			sc := k.genScalar(rs, !thorough && i > 0)
+			cases = append(cases,
+				k.qCase(id("nmul", i), "nmul", u, v), k.kCase(id("nmul", i), "nmul", u, v),
+				k.qCase(id("ninv", i), "ninv", u), k.kCase(id("ninv", i), "ninv", u),
+				k.qCase(id("nscale", i), "nscale", u, sc), k.kCase(id("nscale", i), "nscale", u, sc),
+				k.qCase(id("noise", i), "noise", u), k.kCase(id("noise", i), "noise", u))
+			cases = append(cases, k.textbookCase(id("tb", i)+"p", x, u, false), k.textbookCase(id("tb", i)+"s", y, v, true))
+		}
+	}
+	// key-size floors and factor checks with the stored primes
+	byKind := map[keySpec]*pkey{}
+	for i, w := range want {
+		byKind[w] = keys[i]
+	}
+	k2, k3 := byKind[keySpec{"general", 2048}], byKind[keySpec{"general", 3072}]
+	kb := byKind[keySpec{"blum", 2048}]
+	cases = append(cases,
+		keyCase("floor.0", 3072, k2.p, k2.q), keyCase("floor.1", 2048, k2.p, k2.q),
+		keyCase("floor.2", 3072, k3.p, k3.q), keyCase("floor.3", 2048, k3.p, k3.q),
+		keyCase("floor.4", 2048, k2.p, k2.p), keyCase("floor.5", 2048, k2.p, k3.q),
+		keyCase("floor.6", 2048, k2.p, kb.q), keyCase("floor.7", 3072, k2.p, kb.q),
+		pubKeyCase("pfloor.0", 3072, k2.N), pubKeyCase("pfloor.1", 2048, k2.N),
+		pubKeyCase("pfloor.2", 3072, k3.N), pubKeyCase("pfloor.3", 2048, k3.N),
+		pubKeyCase("pfloor.4", 2048, new(big.Int).Rsh(k2.N, 1)))
+	// small primes far below the floor
+	cases = append(cases, keyCase("floor.8", 2048, big.NewInt(1000003), big.NewInt(1000033)))
+
+	for gi, g := range groups() {
+		r := vh.NewRng(a.Seed, "C16", stream+"/elgamal", gi)
+		for s := 0; s < egSeq; s++ {
+			var sa *big.Int
+			switch s {
+			case 0:
+				sa = big.NewInt(2)
+			case 1:
+				sa = new(big.Int).Sub(g.order(), one)
+			default:
+				sa = r.BigBelow(g.order())
+				if sa.Cmp(two) < 0 {
+					sa = big.NewInt(3)
+				}
+			}
+			cases = append(cases, g.seqCase(strconv.Itoa(s), sa, genEgSeq(r, g.order(), egLen)))
+		}
+		for s := 0; s < 3; s++ {
+			cases = append(cases, g.sampled("s"+strconv.Itoa(s), r))
+		}
+		cases = append(cases, g.keyCases("k")...)
+		cases = append(cases, g.algCases("a", r)...)
+	}
+
+	compare(res, a, cases, a.Search)
+	var names []string
+	for _, k := range keys {
+		names = append(names, fmt.Sprintf("%s-%d", k.flavour, k.bits))
+	}
+	sort.Strings(names)
+	res.Note("Paillier keys: %s", strings.Join(names, ", "))
+	res.Write(a.Out)
 }
